@@ -121,11 +121,15 @@ def generate_zonedb(
         # Generate the buf_size estimates for each zone, between start_year and
         # until_year.
         logging.info('==== Estimating transition buffer sizes')
+        # ExtendedZoneProcessor accepts the years [startYear - 1, untilYear],
+        # one more at each end than the nominal range, so the estimate has
+        # to cover those years as well.
         logging.info(
             'Checking years in [%d, %d)',
-            tzdb['start_year'], tzdb['until_year'])
+            tzdb['start_year'] - 1, tzdb['until_year'] + 1)
         estimator = BufSizeEstimator(
-            zone_infos, zone_policies, tzdb['start_year'], tzdb['until_year'])
+            zone_infos, zone_policies,
+            tzdb['start_year'] - 1, tzdb['until_year'] + 1)
         (buf_sizes, max_size) = estimator.estimate()
         logging.info(
             'Num zones=%d; Max buffer size=%d',
@@ -153,7 +157,8 @@ def generate_zonedb(
             too_many = []
             for name, zone_info in zone_infos.items():
                 zone_specifier = ZoneSpecifier(zone_info)
-                for year in range(tzdb['start_year'], tzdb['until_year']):
+                for year in range(
+                        tzdb['start_year'] - 1, tzdb['until_year'] + 1):
                     matches = zone_specifier._find_matches(
                         YearMonthTuple(year - 1, 12),
                         YearMonthTuple(year + 1, 2))
